@@ -1261,7 +1261,13 @@ func (st *State) specCall(e *SExpr, env *specEnv) Value {
 				return Value{T: rT, S: rs, Term: sf.Name}
 			}
 			res := Value{T: rT, S: rs, Term: app(sf.Name, ts...)}
-			if sf.Body != nil && !env.noUnfold && env.facts != nil {
+			unfold := sf.Body != nil && !env.noUnfold && env.facts != nil
+			if unfold && len(ss) > 0 && Sort(ss[0]) == SIface && !strings.HasPrefix(ts[0], "(mk_iface ") {
+				// a definition by cases on the dynamic type of its first argument: unfolding it at an
+				// object of unknown type only yields the whole case distinction (large, rarely useful)
+				unfold = false
+			}
+			if unfold {
 				sub := *env
 				sub.noUnfold = true
 				sub.vars = map[string]Value{}
